@@ -77,6 +77,17 @@ def gen(rng, tier):
         declared = j % 3 != 2
         path = ["/g%d" % (L + 5), "/g%d" % (L + 5), "/g%d" % max(L - 1, 0)][j % 3]
         cases.append("B %d ok %d %s" % (S, 1200, upload(path, L, cut, declared, False, rng.randint(1, 10**6), False)))
+    # an upload COMPLETED while the pool is busy for six seconds (mode K: its last kilobyte arrives once the other request
+    # holds the pool): whatever the server answers meanwhile, no file is left when the upload's connection has ended
+    for L in ((70000,) if tier == "quick" else (70000, 65537, 200000)):
+        cases.append("K %d ok %d %s" % (S, 6000, upload("/g%d" % (L + 5), L, L, True, False, rng.randint(1, 10**6), False)))
+    # several concurrent uploads on one async thread (mode N): 2 .. 12 clients stall mid-body at the same time, then all
+    # go away; and the same with uploads that are refused / complete
+    for j, ncl in enumerate((2, 3, 6, 12) if tier == "quick" else (2, 3, 4, 5, 6, 7, 8, 9, 12, 16, 24)):
+        L = [70000, 200000, 65537][j % 3]
+        cases.append("N %d ok %d %s" % (S, ncl, upload("/g%d" % (L + 5), L, [L // 2, 1, L - 1][j % 3], True, False, rng.randint(1, 10**6), False)))
+    cases.append("N %d ok 5 %s" % (S, upload("/g70005", 70000, 70000, True, False, rng.randint(1, 10**6), False)))
+    cases.append("N %d ok 5 %s" % (S, upload("/g100", 70000, 30000, True, False, rng.randint(1, 10**6), False)))
     # the same with a stalled global logger and a garbage-sending client on a one-thread executor (mode E)
     for j in range(2 if tier == "quick" else 12):
         L = [70000, 65537, 200000][j % 3]
